@@ -10,6 +10,10 @@ PROG_POOL = [0.0, 0.0, 0.0, 0.0, 0.0, 0.25, 0.5, 0.75, 1.0]
 SKILL_POOL = [None, 0.0, 0.5, 1.0, 1.0, 1.0, 1.5, 2.0]
 COST_POOL = [0.0, 0.5, 1.0, 2.0, 3.0, 10.0]
 SPACE_POOL = [0.5, 1.0, 1.0, 1.5, 2.0, 3.0]
+# decimal sizes: not representable in binary, so that an exact fit on paper (0.3 - 0.1 - 0.1 against 0.1,
+# 3.3 - 1.1 - 1.1 against 1.1) is a rounding error away from the component size
+DEC_SPACE_POOL = [0.1, 0.1, 0.2, 0.3, 0.3, 1.1, 2.2, 3.3]
+NAME_POOL = ["New Task", "New Task", "cut", "weld"]
 RATE_POOL = [1.0, 1.0, 0.5, 2.0, 0.25]
 ALL_KINDS = [0, 1, 2, 3]
 
@@ -56,6 +60,12 @@ class Cfg(object):
         self.onesided = 0  # 1 in n teams/workplaces has some links on its own side only (0 = never)
         self.abs_p = 3  # 1 in abs_p workers (abs_p+1 facilities) has an own absence list
         self.abs_size = 4  # max length of a per-resource absence list
+        self.abs_long = 6  # 1 in n per-resource absence lists is a long calendar (17-30 entries, any order)
+        self.decimal_space = 4  # 1 in n specs draws component sizes and capacities from DEC_SPACE_POOL
+        self.dup_names = 8  # 1 in n specs gives several tasks the same name (skills are per name)
+        self.ids_flat = 8  # 1 in n specs uses the same ID strings for objects of different kinds
+        self.multi_parent = 0  # 1 in n nested "free" specs gives some component a second parent
+        self.org_tree = 0  # 1 in n specs sets parent_team / parent_workplace links
         for k, v in kw.items():
             if not hasattr(self, k):
                 raise AttributeError(k)
@@ -79,6 +89,15 @@ def _one_in(draw, n):
 
 def abs_list(max_step=25, max_size=5):
     return st.lists(st.integers(0, max_step), unique=True, max_size=max_size)
+
+
+@st.composite
+def resource_abs(draw, cfg):
+    """Absence list of one worker/facility: short (any order), or a long calendar with late additions."""
+    if _one_in(draw, cfg.abs_long):
+        hi = max(cfg.abs_max, 45)
+        return draw(st.lists(st.integers(0, hi), unique=True, min_size=17, max_size=30))
+    return draw(abs_list(cfg.abs_max, cfg.abs_size))
 
 
 @st.composite
@@ -206,8 +225,9 @@ def model_spec(draw, cfg):
     # ---- components
     comps = []
     roots = []
+    space_pool = DEC_SPACE_POOL if (n_comps and _one_in(draw, cfg.decimal_space)) else SPACE_POOL
     for i in range(n_comps):
-        c = {"space": draw(st.sampled_from(SPACE_POOL)), "parent": None}
+        c = {"space": draw(st.sampled_from(space_pool)), "parent": None}
         if cfg.nested and i > 0 and draw(st.booleans()):
             if cfg.nested == "free":
                 c["parent"] = draw(st.integers(0, i - 1))
@@ -215,6 +235,10 @@ def model_spec(draw, cfg):
                 c["parent"] = draw(st.sampled_from(roots))
         if c["parent"] is None:
             roots.append(i)
+        elif cfg.nested == "free" and cfg.multi_parent and i > 1 and _one_in(draw, cfg.multi_parent):
+            p2 = draw(st.integers(0, i - 1))
+            if p2 != c["parent"]:
+                c["parent2"] = p2  # shared sub-assembly: listed as a child of two components
         comps.append(c)
     if cfg.nested and cfg.nested != "free":
         assembly_form(tasks, deps, comps)
@@ -241,7 +265,7 @@ def model_spec(draw, cfg):
             "mw": None,
         }
         if cfg.worker_abs and _one_in(draw, cfg.abs_p):
-            w["abs"] = draw(abs_list(cfg.abs_max, cfg.abs_size))
+            w["abs"] = draw(resource_abs(cfg))
         if facs:
             fs = draw(
                 st.lists(
@@ -260,7 +284,7 @@ def model_spec(draw, cfg):
     for i in range(n_wps):
         flags = draw(st.lists(bool3, min_size=n, max_size=n))
         wp = {
-            "cap": draw(st.sampled_from(SPACE_POOL)),
+            "cap": draw(st.sampled_from(space_pool)),
             "targets": [k for k in range(n) if flags[k]],
             "inputs": [],
         }
@@ -286,7 +310,7 @@ def model_spec(draw, cfg):
             }
         )
         if cfg.worker_abs and _one_in(draw, cfg.abs_p + 1):
-            f["abs"] = draw(abs_list(cfg.abs_max, cfg.abs_size))
+            f["abs"] = draw(resource_abs(cfg))
 
     servable = bool(cfg.servable) and draw(st.integers(0, 3)) < cfg.servable
     spec = {
@@ -304,6 +328,18 @@ def model_spec(draw, cfg):
         spec["float_mode"] = True
     if tie:
         spec["tie_rich"] = True
+    if n > 1 and _one_in(draw, cfg.dup_names):
+        spec["names"] = draw(st.lists(st.sampled_from(NAME_POOL), min_size=n, max_size=n))
+        share_skills_by_name(spec)
+    if _one_in(draw, cfg.ids_flat):
+        spec["ids"] = "flat"
+    if _one_in(draw, cfg.org_tree):
+        for k, tm in enumerate(teams):
+            if n_teams > 1 and draw(st.booleans()):
+                tm["parent"] = draw(st.sampled_from([j for j in range(n_teams) if j != k]))
+        for k, wp in enumerate(wps):
+            if n_wps > 1 and draw(st.booleans()):
+                wp["parent"] = draw(st.sampled_from([j for j in range(n_wps) if j != k]))
     if servable:
         make_servable(spec)
     if _one_in(draw, cfg.warm):
@@ -395,15 +431,36 @@ def assembly_form(tasks, deps, comps):
                     reach = fs_reach(spec, strict=True)
 
 
-def single_task_components(spec):
+def share_skills_by_name(spec):
+    """Skills are stored per task *name*: tasks that share a name share every worker's and facility's skill value
+    (the value of the first task of that name). Keeps the spec's per-index skill tables truthful."""
+    names = spec.get("names")
+    if not names:
+        return
+    first = {}
+    for i, nm in enumerate(names):
+        first.setdefault(nm, i)
+    for r in list(spec["workers"]) + list(spec["facs"]):
+        sk = r.get("skills", {})
+        new = {}
+        for i, nm in enumerate(names):
+            v = sk.get(str(first[nm]))
+            if v is not None:
+                new[str(i)] = v
+        r["skills"] = new
+
+
+def single_task_components(spec, keep_space=False):
     """Profile "pairs": every component-bound, non-automatic task becomes a facility task on a component of its own
-    (flat product), so that the worker-facility pair clauses of C06/C11 apply to it."""
+    (flat product), so that the worker-facility pair clauses of C06/C11 apply to it. keep_space: the new component
+    has the size of the one the task was bound to (components then compete for room), else 0.5."""
     comps = []
     has_wp = bool(spec["wps"])
+    old = spec["comps"]
     for t in spec["tasks"]:
         if t.get("comp") is not None and not t["auto"] and has_wp:
             t["nf"] = True
-            comps.append({"space": 0.5, "parent": None})
+            comps.append({"space": old[t["comp"]]["space"] if keep_space else 0.5, "parent": None})
             t["comp"] = len(comps) - 1
         else:
             t["comp"] = None
@@ -411,6 +468,13 @@ def single_task_components(spec):
             t["fixf"] = None
     spec["comps"] = comps
     return spec
+
+
+@st.composite
+def pairs_spec(draw, cfg, keep_space=None):
+    """model_spec in the "pairs" profile; half of the time the components keep their generated sizes."""
+    spec = draw(model_spec(cfg))
+    return single_task_components(spec, keep_space=draw(st.booleans()) if keep_space is None else keep_space)
 
 
 def make_servable(spec):
